@@ -7,7 +7,7 @@
   results of both models are the results of the abstract store, which keeps the invariants the
   property names.  `v` is the header-verification oracle (`ExtendedHeader::verify`), arbitrary.
 -/
-import Lumina.Proofs.StoreHist
+import Lumina.Proofs.StoreStrict
 import Lumina.Gen.C19
 
 open Lumina.Model.Store Lumina.Spec.C19
@@ -84,19 +84,6 @@ theorem mem_sampled_within_stored_pruned_disjoint (v : Hdr → Hdr → Bool) (op
     (∀ h, Ranges.mem m.sampledRanges h → Ranges.mem m.headerRanges h) ∧
     (∀ h, Ranges.mem m.prunedRanges h → ¬ Ranges.mem m.headerRanges h) := by
   obtain ⟨_, r, hi⟩ := mem_run_sim v ops hw _ _ rm_init absInv_init
-  refine ⟨fun h hs => ?_, fun h hp hh => ?_⟩
-  · rw [r.memH]; exact hi.sampled h ((r.memS h).1 hs)
-  · have := hi.pruned h ((r.memP h).1 hp)
-    rw [(r.memH h).1 hh] at this; cases this
-
-/-- PARTIAL (needs `ValidRun`): … and the range table of the redb store -/
-theorem redb_sampled_within_stored_pruned_disjoint_partial (v : Hdr → Hdr → Bool) (ops : List Op) (hw : AllWf ops)
-    (hv : ValidRun v init ops) :
-    let t := (runOps (RedbStore.step v) RedbStore.new ops).1
-    (∀ h, Ranges.mem (rawRanges t .sampled) h → Ranges.mem (rawRanges t .header) h) ∧
-    (∀ h, Ranges.mem (rawRanges t .pruned) h → ¬ Ranges.mem (rawRanges t .header) h) := by
-  obtain ⟨_, r⟩ := redb_run_sim v ops hw _ _ rr_init absInv_init hv
-  have hi := (abs_run_inv v ops hw _ absInv_init (absVer_init v)).1
   refine ⟨fun h hs => ?_, fun h hp hh => ?_⟩
   · rw [r.memH]; exact hi.sampled h ((r.memS h).1 hs)
   · have := hi.pruned h ((r.memP h).1 hp)
@@ -181,6 +168,33 @@ theorem mem_never_panics (v : Hdr → Hdr → Bool) (ops : List Op) (hw : AllWf 
     · rw [e]; exact abs_never_panics v a op
     · exact ih (fun o ho => hw o (List.mem_cons_of_mem _ ho)) _ r e
 
+/-- REDB STORE, FULL characterisation (no hypothesis on the headers): in every history the redb
+    store answers exactly like `stepS` (Proofs/StoreStrict.lean) = the abstract store in which a
+    stored header is read back through `decode`: an unvalidated stored header answers
+    `StoredDataError` when read, when it is the neighbour of an insertion and when it is to be
+    removed (nothing changes then); everything else is the specification.  This pins the open
+    finding down: the redb store deviates from the abstract store at these reads and nowhere else. -/
+theorem redb_conforms_strict (v : Hdr → Hdr → Bool) (ops : List Op) (hw : AllWf ops) :
+    (runOps (RedbStore.step v) RedbStore.new ops).2 = (runOps (stepS v) init ops).2 :=
+  (redb_runS_sim v ops hw _ _ rr_init absInv_init (absVer_init v)).1
+
+/-- … and the states it reaches keep the invariants the property names -/
+theorem redb_strict_invariants (v : Hdr → Hdr → Bool) (ops : List Op) (hw : AllWf ops) :
+    invOK (runOps (stepS v) init ops).1 = true :=
+  invOK_of_absInv _ (redb_runS_sim v ops hw _ _ rr_init absInv_init (absVer_init v)).2.2.1
+
+/-- the range table of the redb store keeps sampled within stored and pruned disjoint from
+    stored in EVERY history (no hypothesis on the headers) -/
+theorem redb_sampled_within_stored_pruned_disjoint (v : Hdr → Hdr → Bool) (ops : List Op) (hw : AllWf ops) :
+    let t := (runOps (RedbStore.step v) RedbStore.new ops).1
+    (∀ h, Ranges.mem (rawRanges t .sampled) h → Ranges.mem (rawRanges t .header) h) ∧
+    (∀ h, Ranges.mem (rawRanges t .pruned) h → ¬ Ranges.mem (rawRanges t .header) h) := by
+  obtain ⟨_, r, hi, _⟩ := redb_runS_sim v ops hw _ _ rr_init absInv_init (absVer_init v)
+  refine ⟨fun h hs => ?_, fun h hp hh => ?_⟩
+  · rw [r.memH]; exact hi.sampled h ((r.memS h).1 hs)
+  · have := hi.pruned h ((r.memP h).1 hp)
+    rw [(r.memH h).1 hh] at this; cases this
+
 /-! ### the open finding: an unvalidated header accepted by `insert`
 
 A single header is internally verified (`From<ExtendedHeader>`), an empty store accepts any valid
@@ -205,6 +219,12 @@ theorem stores_disagree_counterexample :
       [.ok .unit, .err .storedDataError, .ok (.bool true), .err .storedDataError,
        .err (.constraintsNotMet .noAdjacent)] := by
   refine ⟨by unfold AllWf; decide, by decide, by decide⟩
+
+/-- the strict abstract store predicts exactly these answers of the redb store (non-vacuity of
+    `redb_conforms_strict` on a history with an unvalidated header) -/
+example : (runOps (stepS cexV) init cexOps).2 =
+    [.ok .unit, .err .storedDataError, .ok (.bool true), .err .storedDataError,
+     .err (.constraintsNotMet .noAdjacent)] := by decide
 
 theorem stores_agree_full_false : ¬ StoresAgreeFull := by
   intro h
